@@ -329,7 +329,7 @@ func c29NewG(r *Rng) *c29G {
 
 func c29Gen(gen *Gen) {
 	r := gen.Rng
-	n := gen.N(260, 5000)
+	n := gen.N(600, 12000)
 	for i := 0; i < n; i++ {
 		g := c29NewG(r)
 		g.workers()
@@ -438,7 +438,7 @@ func c29Gen(gen *Gen) {
 		gen.Case(g.lines...)
 	}
 	// pure helpers: AAD / principal key / token layout against the model, broad alphabets
-	m := gen.N(40, 600)
+	m := gen.N(60, 800)
 	for i := 0; i < m; i++ {
 		var lines []string
 		for k := 0; k < 12; k++ {
@@ -455,7 +455,7 @@ func c29Gen(gen *Gen) {
 				lines = append(lines, fmt.Sprintf("aad %s:%s:%s", Pick(r, []string{"a", "u"}), hex.EncodeToString(d), hex.EncodeToString(p)))
 			case 1:
 				n := Pick(r, []int{0, 1, 2, 12, 254, 255, 256, 300})
-				lines = append(lines, fmt.Sprintf("plain %s %s", hex.EncodeToString(r.Bytes(n)), hex.EncodeToString(r.Bytes(12))))
+				lines = append(lines, fmt.Sprintf("plain x%s x%s", hex.EncodeToString(r.Bytes(n)), hex.EncodeToString(r.Bytes(12))))
 			default:
 				var p []byte
 				switch r.Intn(4) {
@@ -473,14 +473,14 @@ func c29Gen(gen *Gen) {
 					p = append(r.Bytes(8), 0)
 					p = append(p, r.Bytes(20)...)
 				}
-				lines = append(lines, "parse "+hex.EncodeToString(p))
+				lines = append(lines, "parse x"+hex.EncodeToString(p))
 			}
 		}
 		lines = append(lines, "aad anon")
 		gen.Case(lines...)
 	}
 	// concurrent searches (no forced schedule): overlap detector, Close counters, lock probes
-	s := gen.N(4, 60)
+	s := gen.N(6, 80)
 	for i := 0; i < s; i++ {
 		gen.Case(fmt.Sprintf("stress %d %d %d", r.Intn(1000), r.Range(3, 8), r.Range(3, 10)), "realreaper 1")
 	}
@@ -494,7 +494,21 @@ func c29RunToDone(w *c29World, t *c29Thread) {
 	w.byID[t.id] = t
 	w.mu.Unlock()
 	t.start(w)
+	deadline := time.Now().Add(5 * time.Second)
 	for t.getStatus() != "done" {
+		w.mu.Lock()
+		stuck := w.stuck
+		w.mu.Unlock()
+		if stuck || time.Now().After(deadline) {
+			w.mu.Lock()
+			first := !w.stuck
+			w.stuck = true
+			w.mu.Unlock()
+			if first {
+				w.oracle("request-stuck", fmt.Sprintf("concurrent search: request %d did not complete within 5 s (a session lock was never released?)", t.id))
+			}
+			return
+		}
 		time.Sleep(50 * time.Microsecond)
 	}
 }
